@@ -59,6 +59,7 @@ class SimThread:
         self.timed_out = False
         self.idle_wait = False
         self.ready_seq = 0
+        self.prio = sched.rng.random() if sched.policy == "pct" else 0.0
         self.joiners: list[SimThread] = []
         self.os_thread = None
         self.is_main = False
@@ -108,7 +109,7 @@ class Scheduler:
     """One simulation run."""
 
     def __init__(self, seed=0, policy="fifo", switch_prob=0.2, script=None, max_vtime=100000.0,
-                 max_steps=5_000_000, line_cost=1e-4, randint=None):
+                 max_steps=5_000_000, line_cost=1e-4, randint=None, pct_depth=2, pct_horizon=150):
         self.now = 0.0
         self.seed = seed
         self.policy = policy
@@ -137,6 +138,12 @@ class Scheduler:
         self.wedge_info = None
         self.log: list = []
         self.preempt_budget = None  # for bounded-preemption scripts
+        # PCT (probabilistic concurrency testing): random thread priorities + a few priority change points
+        self.yp_count = 0
+        self.pct_points = set()
+        self.pct_low = 0.0
+        if policy == "pct":
+            self.pct_points = {self.rng.randrange(1, pct_horizon) for _ in range(pct_depth)}
 
     # ------------------------------------------------------------------ thread management
     def spawn(self, target, args=(), kwargs=None, name=None, daemon=True) -> SimThread:
@@ -206,6 +213,10 @@ class Scheduler:
             k = self.rng.randrange(len(cands))
             self.choices.append(k)
             return cands[k]
+        if self.policy == "pct":
+            best = max(cands, key=lambda t: t.prio)
+            self.choices.append(cands.index(best))
+            return best
         # fifo
         self.choices.append(0)
         return cands[0]
@@ -302,6 +313,14 @@ class Scheduler:
             if self.script_pos < len(self.script):
                 self._switch(me, voluntary=True)
             return
+        if self.policy == "pct":
+            self.yp_count += 1
+            if self.yp_count in self.pct_points:
+                self.pct_low -= 1.0
+                me.prio = self.pct_low
+            if len(self._runnable()) > 1:
+                self._switch(me, voluntary=True)
+            return
         if self.policy == "random" and self.rng.random() < self.switch_prob:
             run = self._runnable()
             if len(run) > 1:
@@ -371,13 +390,15 @@ class Scheduler:
 
 
 def run(main, *, seed=0, policy="fifo", switch_prob=0.2, script=None, max_vtime=100000.0,
-        max_steps=5_000_000, line_funcs=(), wall_timeout=120.0, randint=None, line_cost=1e-4):
+        max_steps=5_000_000, line_funcs=(), wall_timeout=120.0, randint=None, line_cost=1e-4,
+        pct_depth=2, pct_horizon=150):
     """Run `main(sched)` as the main simulated thread; returns the Scheduler (see .outcome)."""
     global _current
     if _current is not None:
         raise SimError("nested simulation")
     sched = Scheduler(seed=seed, policy=policy, switch_prob=switch_prob, script=script,
-                      max_vtime=max_vtime, max_steps=max_steps, randint=randint, line_cost=line_cost)
+                      max_vtime=max_vtime, max_steps=max_steps, randint=randint, line_cost=line_cost,
+                      pct_depth=pct_depth, pct_horizon=pct_horizon)
     for f in line_funcs:
         code = getattr(f, "__code__", None) or getattr(getattr(f, "__func__", None), "__code__", None)
         if code is None and isinstance(f, types.CodeType):
